@@ -2,7 +2,8 @@
    100 smart_split        L [pol; dlm; preserve; L lines]        -> L [ L [L fields; warn; L tags] per line ]   (tags: taken-as-quoted, quoted policies)
    101 split_quoted_general (no fast path)  L [dlm; line; preserve] -> L [L fields; warn]
    110 quote_field        L [lang; rfc; dlm; field]              -> str
-   120 write_table        L [lang; pol; dlm; opt header; rows]   -> L [L lines; opt L [idx; errkind]; none; delim]
+   120 write_table        L [lang; pol; dlm; enc; opt header; rows] -> L [L lines; opt L [idx; errkind]; none; delim; opt expected read-back; exactly representable]
+                          (read-back is given when no write fails and the table is representable up to CR -> LF in quoted_rfc fields)
    130 representable      L [pol; dlm; fields]                   -> L [representable; line_ok; good_dlm]
    131 table_representable L [pol; dlm; enc; rows of fields]     -> bool
    140 line round trip    L [pol; dlm; fields]                   -> L [line; L fields; warn]  (smart_split of join_line)
@@ -77,14 +78,23 @@ Definition ep_quote_field (x : sx) : sx :=
 
 Definition ep_write_table (x : sx) : sx :=
   match x with
-  | L [fl; p; d; h; rows] =>
+  | L [fl; p; d; A enc; h; rows] =>
       match lang_of_sx fl, pol_of_sx p, str_of_sx d,
             option_of_sx (list_of_sx cell_of_sx) h, list_of_sx (list_of_sx cell_of_sx) rows with
       | Some fl', Some pol, Some dlm, Some header, Some rs =>
           let '(lines, e, nf, df) := write_table fl' pol dlm header rs in
+          let all_rows := match header with Some hd => hd :: rs | None => rs end in
+          let norm := map (fun r => fst (normalize_fields dlm r)) all_rows in
+          let readback :=
+            match e with
+            | Some _ => None
+            | None => if good_dlm pol dlm && table_ok pol dlm enc norm then Some (map (map nl_norm) norm) else None
+            end in
           L [sx_of_list sx_of_str lines;
              sx_of_option (fun ie => L [sx_of_nat (fst ie); sx_of_werr (snd ie)]) e;
-             sx_of_bool nf; sx_of_bool df]
+             sx_of_bool nf; sx_of_bool df;
+             sx_of_option (sx_of_list (sx_of_list sx_of_str)) readback;
+             sx_of_bool (good_dlm pol dlm && table_representable pol dlm enc norm)]
       | _, _, _, _, _ => ERR
       end
   | _ => ERR
